@@ -348,7 +348,7 @@ for _k, _r in _ADD5.items():
     PROPS[_k]['rule'] = PROPS[_k]['rule'] + _r
 # round-6 additions (rule text only)
 _ADD6 = {
-    'C01': ' Plus: evictDuringUpdate (a partial update parked in a slow handler while the real eviction body runs for another name of the type); batches of 15-45 unusable resources in one response.',
+    'C01': ' Plus: every seventh history runs with LDSNotRequired (the inbound listener is stored only if asked for); evictDuringUpdate (a partial update parked in a slow handler while the real eviction body runs for another name of the type); batches of 15-45 unusable resources in one response.',
     'C02': ' Plus: batches of 15-45 unusable resources in one response (the answer is a NACK with an error detail, however long the error list).',
     'C03': ' Plus: doubleFailure (two stream failures in a row: the live stream\'s last requests are the interest sets).',
     'C05': ' Plus: agedRecordCase (a resource delivered again after it had been removed and its access record aged 31 s); a harness process killed by the Go runtime inside the code under test, or blocked for a minute in one lock wait inside it, is reported as a violation with the report as replay.',
